@@ -78,6 +78,11 @@ class Open(object):
                 sub_error=bgp_cons.ERR_MSG_HDR_BAD_MSG_LEN,
                 data=message[:10])
 
+        if self.bgp_id == 0:
+            raise excp.OpenMessageError(
+                sub_error=bgp_cons.ERR_MSG_OPEN_BAD_BGP_ID,
+                data=self.bgp_id)
+
         self.bgp_id = str(netaddr.IPAddress(self.bgp_id))
 
         if self.version != 4:
